@@ -22,6 +22,8 @@ RULE = ("Hypothesis constructs (custom forms, table forms, a potential definitio
         "4..7 separations, two formatting styles, an ordering key) from the documented grammar. Each case is "
         "read from potable text in [Pair], [EAM-Embed], [EAM-Density] (both flavours), [EAM-ADP-Dipole] and "
         "[EAM-ADP-Quadrupole], re-read under the style variants, and composed through the Python API. "
+        "A sibling definition sharing most of its text is tabulated beside it in one section and an intermediate "
+        "plus()/product() result is kept and re-used as an operand through the API. "
         "Non-trivial = the definition contains a product/pow/trans/spline node, or has depth >= 2, or a custom "
         "formula that calls another custom form; distinct = distinct canonical JSON.")
 ASSUMPTIONS = [
